@@ -4,6 +4,7 @@ import (
 	"fmt"
 	"testing"
 
+	age "github.com/craterdog/go-collection-framework/v4/agent"
 	col "github.com/craterdog/go-collection-framework/v4/collection"
 	"verifharness/core"
 	"verifharness/lib"
@@ -18,7 +19,7 @@ type fnCase struct {
 	Alias bool   `json:"alias,omitempty"`
 	Zero  bool   `json:"zero,omitempty"` // Extract: the catalog stores the zero value under its first key; Merge: under every other key
 	Elem  string `json:"elem,omitempty"` // Concatenate: element type (codec)
-	Hist  int    `json:"hist,omitempty"` // Merge, Extract: how the catalogs got their content (see catalogWithPast)
+	Hist  int    `json:"hist,omitempty"` // how the operands got their content (see catalogWithPast, listWithPast)
 	Keys  string `json:"keys,omitempty"` // Extract: the kind of the key sequence: List (default) Array Set Stack Queue
 }
 
@@ -68,10 +69,88 @@ func catalogWithPast(hist int, n int, fill func(cat valueSetter)) col.CatalogLik
 		}
 		observe()
 		cat.ReverseValues()
+	case 4:
+		// the pairs are set in the opposite order, every observer is used, then the catalog is sorted into
+		// the intended order with a ranker of the caller's own
+		var order []int
+		fill(recorder{cat, &order})
+		cat.RemoveAll()
+		values := map[int]int{}
+		fill(collector(values))
+		position := map[int]int{}
+		for i, k := range order {
+			if _, seen := position[k]; !seen {
+				position[k] = i
+			}
+		}
+		for i := len(order) - 1; i >= 0; i-- {
+			cat.SetValue(order[i], values[order[i]])
+		}
+		observe()
+		cat.SortValuesWithRanker(func(a, b col.AssociationLike[int, int]) age.Rank {
+			return rankOfInts(position[a.GetKey()], position[b.GetKey()])
+		})
 	default:
 		fill(cat)
 	}
 	return cat
+}
+
+// listWithPast makes a list of the given codes through a history: 0 = made from the Go array; 1 = made in the
+// opposite order, walked (iterator, array view, a Concatenate call), then reversed; 2 = other values first,
+// walked, RemoveAll, the values appended; 3 = made in the opposite order, walked, then sorted into the
+// intended order with a ranker of the caller's own (when the codes are monotone; otherwise as 1);
+// 4 = the same with the default ranker (ints in ascending order only; otherwise as 1).
+func listWithPast[E any](cd lib.Codec[E], codes []int, hist int) col.ListLike[E] {
+	L := col.List[E](lib.Notation())
+	walk := func(l col.ListLike[E]) {
+		for it := l.GetIterator(); it.HasNext(); {
+			it.GetNext()
+		}
+		_, _ = l.AsArray(), l.GetSize()
+		_ = L.Concatenate(l, l)
+	}
+	reversed := make([]int, len(codes))
+	for i, k := range codes {
+		reversed[len(codes)-1-i] = k
+	}
+	asc, desc := true, true
+	for i := 0; i+1 < len(codes); i++ {
+		asc = asc && codes[i] <= codes[i+1]
+		desc = desc && codes[i] >= codes[i+1]
+	}
+	if (hist == 3 && !asc && !desc) || (hist == 4 && !(asc && cd.Name == "int")) {
+		hist = 1
+	}
+	switch hist {
+	case 1:
+		l := L.MakeFromArray(encAll(cd, reversed))
+		walk(l)
+		l.ReverseValues()
+		return l
+	case 2:
+		l := L.MakeFromArray(encAll(cd, []int{61, 62, 63}))
+		walk(l)
+		l.RemoveAll()
+		l.AppendValues(col.Array[E](lib.Notation()).MakeFromArray(encAll(cd, codes)))
+		return l
+	case 3:
+		l := L.MakeFromArray(encAll(cd, reversed))
+		walk(l)
+		l.SortValuesWithRanker(func(a, b E) age.Rank {
+			if asc {
+				return rankOfInts(cd.Dec(a), cd.Dec(b))
+			}
+			return rankOfInts(cd.Dec(b), cd.Dec(a))
+		})
+		return l
+	case 4:
+		l := L.MakeFromArray(encAll(cd, reversed))
+		walk(l)
+		l.SortValues()
+		return l
+	}
+	return L.MakeFromArray(encAll(cd, codes))
 }
 
 // recorder notes the order in which keys are set; collector only remembers the values
@@ -164,12 +243,15 @@ func execConcat[E any](c fnCase, cd lib.Codec[E]) (res core.Result) {
 	arr := func(l col.ListLike[E]) []int { return decAll(cd, l.AsArray()) }
 	{
 		L := col.List[E](n)
-		a := L.MakeFromArray(encAll(cd, c.A))
+		a := listWithPast(cd, c.A, c.Hist)
 		b := a
 		bvals := c.A
 		if !c.Alias {
-			b = L.MakeFromArray(encAll(cd, c.B))
+			b = listWithPast(cd, c.B, c.Hist)
 			bvals = c.B
+		}
+		if c.Hist > 0 {
+			res.Classes = append(res.Classes, fmt.Sprintf("operands-with-a-past-%d", c.Hist))
 		}
 		want := append(append([]int{}, c.A...), bvals...)
 		var r col.ListLike[E]
@@ -389,9 +471,12 @@ func execFnOther(c fnCase, _ core.Source) (res core.Result) {
 		case "Queue":
 			keys = col.Queue[int](n).MakeFromArray(c.B)
 		default:
-			keys = col.List[int](n).MakeFromArray(c.B)
+			keys = listWithPast(cdInt, c.B, c.Hist)
 		}
 		requested := append([]int{}, keys.AsArray()...)
+		if c.Keys == "" || c.Keys == "List" || c.Keys == "Array" {
+			requested = append([]int{}, c.B...)
+		}
 		want := []kv{}
 		absent, repeated := false, false
 		for _, k := range requested {
@@ -517,6 +602,7 @@ func genFnExhaustive(s core.Source) fnCase {
 	switch c.Fn {
 	case "Concatenate":
 		c.Elem = core.Pick(s, []string{"int", "any"}, "elem")
+		c.Hist = s.Choose(5, "hist")
 		c.A = enumList(s, 3, 4, "a")
 		if s.Choose(2, "alias") == 1 {
 			c.Alias = true
@@ -525,7 +611,7 @@ func genFnExhaustive(s core.Source) fnCase {
 		}
 	case "Merge":
 		c.Zero = s.Choose(2, "zero") == 1
-		c.Hist = s.Choose(4, "hist")
+		c.Hist = s.Choose(5, "hist")
 		c.A = enumOrderedSubset(s, 4, "a")
 		if s.Choose(2, "alias") == 1 {
 			c.Alias = true
@@ -535,7 +621,7 @@ func genFnExhaustive(s core.Source) fnCase {
 	case "Extract":
 		c.A = enumOrderedSubset(s, 3, "a") // keys 0..2 present (some of them), key 3.. absent
 		c.Zero = s.Choose(2, "zero") == 1
-		c.Hist = s.Choose(4, "hist")
+		c.Hist = s.Choose(5, "hist")
 		c.Keys = core.Pick(s, []string{"List", "Set", "Stack"}, "keys-kind")
 		c.B = enumList(s, 4, 3, "keys")
 	}
@@ -548,17 +634,18 @@ func genFnRandom(s core.Source) fnCase {
 	switch c.Fn {
 	case "Concatenate":
 		c.Elem = core.Pick(s, codecNames, "elem")
+		c.Hist = s.Choose(5, "hist")
 		c.A = enumList(s, 8, 12, "a")
 		c.B = enumList(s, 8, 12, "b")
 	case "Merge":
 		c.Zero = s.Choose(2, "zero") == 1
-		c.Hist = s.Choose(4, "hist")
+		c.Hist = s.Choose(5, "hist")
 		c.A = enumOrderedSubset(s, 7, "a")
 		c.B = enumOrderedSubset(s, 7, "b")
 	case "Extract":
 		c.A = enumOrderedSubset(s, 6, "a")
 		c.Zero = s.Choose(2, "zero") == 1
-		c.Hist = s.Choose(4, "hist")
+		c.Hist = s.Choose(5, "hist")
 		c.Keys = core.Pick(s, []string{"List", "Array", "Set", "Stack", "Queue"}, "keys-kind")
 		c.B = enumList(s, 8, 10, "keys")
 	}
